@@ -1,8 +1,8 @@
 (* Extraction for the C20 correspondence driver (ExtrOcamlBasic only, no Extract Constant). *)
 From Coq Require Import Extraction ExtrOcamlBasic NArith ZArith List.
-From AHK Require Import Lib.Res Lib.ByteStr Model.Persist Model.PersistRec.
+From AHK Require Import Lib.Res Lib.ByteStr Model.Persist Model.PersistRec Model.PersistJson.
 Separate Extraction Z.of_N Z.to_N N.of_nat N.to_nat
   step run crash_after read view_all view_lossy classify
   save_inplace save_atomic save_atomic_nofsync
   chr_from_dict chr_to_dict acc_from_dict acc_to_dict accs_from accs_to
-  entry_load entry_save hex_enc hex_dec load_pairing load_pairings save_pairings wf_accb map_run map_get.
+  entry_load entry_save hex_enc hex_dec load_pairing load_pairings save_pairings wf_accb map_run map_get jprint jparse wfj.
